@@ -20,16 +20,18 @@ CONSTANTS MaxObs
 L0 == [obs |-> 0, rcache |-> 0, bwRecv |-> 0, bwSend |-> 0]
 Kinds == {"plainOK", "plainSepCon", "plainBadToken", "plainCtxWrite", "plainCancel", "plainExpire", "plainRst", "dupToken",
           "bwUpOK", "bwUpCancel", "bwUpRefused", "bwDownOK", "bwDownAbandon",
-          "obsOK", "obsCancel", "obsFail", "obsSilentCancel", "obsAckedCancel",
+          "obsOK", "obsCancel", "obsCancelRefused", "obsCancelGiveUp", "obsFail", "obsSilentCancel", "obsAckedCancel",
           "pingOK", "pingCancel", "oneWay",
           "srvReq", "srvReqNon", "srvReqNoResp", "srvReqHijack", "srvBwUpAbandon", "srvBwDownAbandon", "srvBwDownRetry",
           "tickEarly", "tickBw", "tickLate"}
 Enabled(s, k) == CASE k = "obsOK" -> s.obs < MaxObs
-                   [] k = "obsCancel" -> s.obs > 0
+                   [] k \in {"obsCancel", "obsCancelRefused", "obsCancelGiveUp"} -> s.obs > 0
                    [] OTHER -> TRUE
 Step(s, k) ==
   CASE k = "obsOK" -> [s EXCEPT !.obs = s.obs + 1]
-    [] k = "obsCancel" -> [s EXCEPT !.obs = s.obs - 1]
+    \* (the application has cancelled: the observation is forgotten whether the peer confirms the deregistration, refuses it
+    \*  or never answers it)
+    [] k \in {"obsCancel", "obsCancelRefused", "obsCancelGiveUp"} -> [s EXCEPT !.obs = s.obs - 1]
     [] k = "bwDownAbandon" -> [s EXCEPT !.bwRecv = s.bwRecv + 1]
     \* (a confirmable separate response is acknowledged, and the acknowledgement is remembered for its message ID)
     [] k \in {"srvReq", "srvReqNon", "srvReqNoResp", "srvReqHijack", "plainSepCon"} -> [s EXCEPT !.rcache = s.rcache + 1]
